@@ -143,6 +143,8 @@ def make_cond(p):
         kw = {"Sigma": J(Sig)}
     elif ctor == "Lambda":
         kw = {"Lambda": J(oracle.inv_spd(Sig))}
+    elif ctor == "Sigma+Lambda":
+        kw = {"Sigma": J(Sig), "Lambda": J(oracle.inv_spd(Sig))}  # the log-determinant is left to the constructor
     else:
         kw = {"Sigma": J(Sig), "Lambda": J(oracle.inv_spd(Sig)), "ln_det_Sigma": J(oracle.slogdet_spd(Sig)[0])}
     as_int = bool(p.get("M_int_dtype")) and bool(np.all(np.asarray(p["M"]) == np.round(np.asarray(p["M"]))))  # only if integer-valued
@@ -201,6 +203,8 @@ def make_feature(p):
         kw = {"Sigma": J(Sig)}
     elif ctor == "Lambda":
         kw = {"Lambda": J(oracle.inv_spd(Sig))}
+    elif ctor == "Sigma+Lambda":
+        kw = {"Sigma": J(Sig), "Lambda": J(oracle.inv_spd(Sig))}  # the log-determinant is left to the constructor
     else:
         kw = {"Sigma": J(Sig), "Lambda": J(oracle.inv_spd(Sig)), "ln_det_Sigma": J(oracle.slogdet_spd(Sig)[0])}
     if p["kind"] == "lrbf":
